@@ -88,7 +88,9 @@ func (h *Heap[T]) GetValues() []T {
 	h.mu.RLock()
 	defer h.mu.RUnlock()
 
-	return h.data
+	values := make([]T, len(h.data))
+	copy(values, h.data)
+	return values
 }
 
 // Push inserts new elements at the end of the heap and calls the heapify algorithm to reorder
